@@ -554,8 +554,18 @@ static void send_initial_parent_queries(CURLM *mh)
     struct powermsg *pm = zlistx_first(waitcmds);
     while (pm) {
         char *root_plugname = plugs_find_root_parent(plugs, pm->plugname);
-        assert(root_plugname);
-        int is_active = plugname_active(root_plugname, pm->cmd);
+        int is_active;
+        /* an ancestor named as parent in setplugs was never defined:
+         * answer the target, there is nothing that could be queried
+         */
+        if (!root_plugname) {
+            printf("%s: ancestor plug not defined\n", pm->plugname);
+            zlistx_detach_cur(waitcmds);
+            powermsg_destroy(pm);
+            pm = zlistx_next(waitcmds);
+            continue;
+        }
+        is_active = plugname_active(root_plugname, pm->cmd);
         /* if not active, that means no active attempts to on/off/stat
          * the root plugname, so we need to stat it now
          */
